@@ -42,6 +42,12 @@ META = {
                      "the original hard box for every run.",
                 note=PROOF_NOTE + " Assumes g/ginv map finite input to finite output (checked for the lambda bodies under C11). The internal-coordinate clause "
                      "(logged u inside the transformed box) is not yet claimed."),
+    "C04": dict(level="proof",
+                text="For deterministic targets the returned point is a logged evaluation with exactly the logged value and no logged value is lower: an invariant "
+                     "(incumbent logged, minimal, fval == yval, fsd == 0) proved for the initial design, every search step, every poll loop iteration and the main loop, "
+                     "for all targets, bounds and seeds - ties, plateaus and boundary optima included.",
+                note=PROOF_NOTE + " Preconditions: sloppy_improvement True, improvement_quantile 0.5, no stobads, fresh log (no preloaded fun_values), uncertainty level 0. "
+                     "The per-iteration history clause (recorded fval never increases) and target_type/OptimizeResult copying are checked only by the bounded panel."),
     "C06": dict(not_applicable="population-level convergence quality of a numerical optimiser (success rate over random quadratics): no function-level "
                                "contract expresses a rate and GP regression numerics are outside any solver here; see DESIGN.md section 7/C06"),
 }
